@@ -7,6 +7,7 @@ mod e2;
 mod synth;
 mod e3;
 mod e4;
+mod e5;
 mod e6;
 mod watch;
 mod names;
@@ -16,6 +17,9 @@ mod report;
 mod runner;
 mod seeds;
 mod spec;
+
+#[global_allocator]
+static ALLOC: e5::CountingAlloc = e5::CountingAlloc;
 
 fn main() {
     ops::install_panic_hook();
@@ -39,6 +43,7 @@ fn main() {
             checks::run_check(&id, &tier)
         }
         "replay" => checks::replay(args.get(2).map(|s| s.as_str()).unwrap_or("")),
+        "worker" => e5::worker_main(&args[2..]),
         other => {
             eprintln!("unknown command {}", other);
             2
